@@ -889,9 +889,15 @@ def rewrite_body(body, ctx, cname):
                     argc = len(split_args(toks[n + 1:e]))
                     fname = target if isinstance(target, str) and '__' in target else '%s__%s' % (target, t.text)
                     if isinstance(target, dict):
-                        fname = target.get(argc) or target.get('*')
+                        fname = None
+                        for k_, v_ in target.items():
+                            if isinstance(k_, str) and k_.startswith('args:') and re.search(k_[5:], ' '.join(args.split())):
+                                fname = v_
+                                break
                         if fname is None:
-                            raise ExtractError("%s: no overload of %s with %d args" % (cname, t.text, argc))
+                            fname = target.get(argc) or target.get('*')
+                        if fname is None:
+                            raise ExtractError("%s: no overload of %s with %d args (%s)" % (cname, t.text, argc, args))
                     rtxt = recv if arrow else '&(%s)' % recv
                     new = [Tok('id', fname), Tok('op', '('), Tok('id', rtxt)]
                     if has_args:
@@ -932,7 +938,14 @@ def rewrite_body(body, ctx, cname):
                     e = match_tok(toks, n, '(', ')')
                     argc = len(split_args(toks[n + 1:e]))
                     table = ctx.methods[t.text]
-                    fname = table.get(argc) or table.get('*')
+                    fname = None
+                    atxt_ = ' '.join(untokenize(toks[n + 1:e]).split())
+                    for k_, v_ in table.items():
+                        if isinstance(k_, str) and k_.startswith('args:') and re.search(k_[5:], atxt_):
+                            fname = v_
+                            break
+                    if fname is None:
+                        fname = table.get(argc) or table.get('*')
                     if fname is None:
                         raise ExtractError("%s: no overload of %s with %d args" % (cname, t.text, argc))
                     out.append(Tok('id', fname))
